@@ -5,6 +5,7 @@ import (
 	"math"
 	"strings"
 	"time"
+	_ "time/tzdata"
 
 	"github.com/pip-services3-gox/pip-services3-expressions-gox/calculator"
 	"github.com/pip-services3-gox/pip-services3-expressions-gox/calculator/functions"
@@ -310,13 +311,26 @@ func c08Exec(c *mon.Case) {
 			c.Failf("default function not found by name in another letter case", "FindByName(%q) = nil", name)
 			return
 		}
-		params := make([]*variants.Variant, len(args))
+		// the argument list is the front part of a longer list the caller goes on using (spare capacity behind it)
+		backing := make([]*variants.Variant, len(args)+3)
 		for i, a := range args {
-			params[i] = a.Variant()
+			backing[i] = a.Variant()
 		}
+		var guard [3]*variants.Variant
+		for i := range guard {
+			guard[i] = variants.VariantFromInteger(7001 + i)
+			backing[len(args)+i] = guard[i]
+		}
+		params := backing[:len(args)]
 		if p := mon.Try(func() { res, err = f.Calculate(params, mgr) }); p != nil {
 			c.FailPanic("function "+strings.ToUpper(name), p)
 			return
+		}
+		for i := range guard {
+			if backing[len(args)+i] != guard[i] || guard[i].Type() != variants.Integer || guard[i].AsInteger() != 7001+i {
+				c.Failf("function wrote into the caller's list behind its arguments", "%s(%v) called with the first %d entries of a longer list: entry %d behind them is now %s", name, args, len(args), i, snap(backing[len(args)+i]))
+				return
+			}
 		}
 		for i, a := range args {
 			if !snap(params[i]).Same(a) {
@@ -410,7 +424,19 @@ func c08Exec(c *mon.Case) {
 	c.Mark("functions-with-checked-value", up)
 }
 
+// c08Zone: the calendar functions are exercised in a zone with summer time (embedded tz database), so that
+// "local time" is not accidentally the same as UTC or a fixed offset.
+const c08Zone = "Europe/Berlin"
+
+func lastSunday(year int, month time.Month) int {
+	d := time.Date(year, month+1, 0, 12, 0, 0, 0, time.UTC) // last day of the month
+	return d.Day() - int(d.Weekday())
+}
+
 func buildC08(cfg *mon.Config) []*mon.Sub {
+	if loc, err := time.LoadLocation(c08Zone); err == nil {
+		time.Local = loc
+	}
 	spellings := func(n string) []string {
 		mixed := []byte(strings.ToLower(n))
 		for i := 0; i < len(mixed); i += 2 {
@@ -506,5 +532,79 @@ func buildC08(cfg *mon.Config) []*mon.Sub {
 			return ""
 		},
 	}
-	return []*mon.Sub{exh, rnd}
+	dst := &mon.Sub{
+		Name: "dates-around-zone-transitions", Rule: "the process runs in " + c08Zone + " (embedded tz database): Date(y, m, d, h, mi, s) for y = 2015..2030, d within two days of the last Sundays of March and October (the switches to and from summer time), h = 0..4, mi in {0, 29, 30, 59}, plus 2 fixed mid-winter and mid-summer days, both managers, both call modes; the result must be the instant time.Date gives for these components in the local zone; " + rule,
+		Exhaustive: true, DistinctByGen: true, Floor: 500,
+		Gen: func(emit func(string)) {
+			for y := 2015; y <= 2030; y++ {
+				days := [][2]int{{1, 15}, {7, 15}}
+				for _, m := range []time.Month{time.March, time.October} {
+					for dd := -2; dd <= 2; dd++ {
+						days = append(days, [2]int{int(m), lastSunday(y, m) + dd})
+					}
+				}
+				for _, md := range days {
+					for h := 0; h <= 4; h++ {
+						for _, mi := range []int{0, 29, 30, 59} {
+							emitCall(emit, "Date", []Val{vInt(y), vInt(md[0]), vInt(md[1]), vInt(h), vInt(mi), vInt(7)}, nil)
+						}
+					}
+				}
+			}
+		},
+		Exec: c08Exec,
+	}
+	hexs := func(s string) string { return fmt.Sprintf("%x", s) }
+	bytesSub := &mon.Sub{
+		Name: "contains-on-arbitrary-byte-strings", Rule: "Contains(text, part) for all ordered pairs of 24 strings that include invalid UTF-8 (lone 0xFF, 0xFE, 0xA4, 0xC3, a truncated sequence), U+FFFD itself, single non-ASCII characters and the empty string, direct call and through an expression with the strings bound to variables; the result must be strings.Contains of the two strings byte for byte",
+		Exhaustive: true, DistinctByGen: true, Floor: 500,
+		Gen: func(emit func(string)) {
+			ss := []string{"", "a", "b", "ab", "a\xffb", "a\xfeb", "\xff", "\xfe", "a\uFFFDb", "\uFFFD", "price: 10 \xa4", "\xa4", "\xc3", "\xa9", "é", "caf\xc3", "café", "\xe2\x82", "€", "😀", "\xf0\x9f", "x\x00y", "\x00", "ш"}
+			for _, a := range ss {
+				for _, b := range ss {
+					emit("direct\x00" + hexs(a) + "\x00" + hexs(b))
+					emit("expr\x00" + hexs(a) + "\x00" + hexs(b))
+				}
+			}
+		},
+		Exec: func(c *mon.Case) {
+			parts := strings.SplitN(c.Payload, "\x00", 3)
+			unhex := func(h string) string { var b []byte; fmt.Sscanf(h, "%x", &b); return string(b) }
+			text, part := unhex(parts[1]), unhex(parts[2])
+			var res *variants.Variant
+			var err error
+			if parts[0] == "direct" {
+				f := functions.NewDefaultFunctionCollection().FindByName("contains")
+				if p := mon.Try(func() {
+					res, err = f.Calculate([]*variants.Variant{variants.VariantFromString(text), variants.VariantFromString(part)}, manager("unsafe"))
+				}); p != nil {
+					c.FailPanic("function CONTAINS", p)
+					return
+				}
+			} else {
+				calc := calculator.NewExpressionCalculator()
+				vars := variables.NewVariableCollection()
+				vars.Add(variables.NewVariable("t", variants.VariantFromString(text)))
+				vars.Add(variables.NewVariable("p", variants.VariantFromString(part)))
+				if p := mon.Try(func() {
+					if err = calc.SetExpression("Contains(t, p)"); err == nil {
+						res, err = calc.EvaluateUsingVariables(vars)
+					}
+				}); p != nil {
+					c.FailPanic("evaluating CONTAINS(...)", p)
+					return
+				}
+			}
+			if err != nil || res == nil || res.Type() != variants.Boolean {
+				c.Failf("function CONTAINS fails on valid arguments", "Contains(%q, %q) -> %v, %v", text, part, res, err)
+				return
+			}
+			if res.AsBoolean() != strings.Contains(text, part) {
+				c.Failf("function CONTAINS does not compute what its name denotes", "%s call Contains(%q, %q) -> %v, expected %v", parts[0], text, part, res.AsBoolean(), strings.Contains(text, part))
+				return
+			}
+			c.NonTrivial()
+		},
+	}
+	return []*mon.Sub{exh, rnd, dst, bytesSub}
 }
